@@ -421,12 +421,13 @@ def parse(expr):
     from pymbolic import var
 
     def remove_backticks(expr):
+        # None means "no substitution here, keep descending".
         if not isinstance(expr, var):
-            return expr
+            return None
         varname = expr.name
         if varname.startswith("`") and varname.endswith("`"):
             return var(varname[1:-1])
-        return expr
+        return None
 
     from pymbolic.mapper.substitutor import SubstitutionMapper
     parser = _ExtendedParser()
